@@ -45,6 +45,8 @@ class Facts:
             # normalise the three std facade crates to one spelling so rules can say `std::`
             raw = re.sub(r'(?<![A-Za-z0-9_:])(core|alloc)::', 'std::', raw)
             self._crates[name] = json.loads(raw)
+            if os.environ.get("FV_NO_INLINE") != "1":
+                self.inlined = getattr(self, "inlined", 0) + inline_new_helpers(self._crates[name]["fns"], known_fns())
             if os.environ.get("FV_NO_PARAM_ALIAS") != "1":
                 self.aliased = getattr(self, "aliased", 0) + alias_params(self._crates[name]["fns"])
             if os.environ.get("FV_NO_THREAD") != "1":
@@ -267,6 +269,184 @@ def alias_params(fns):
         f.pop("_dbgmap", None)
         n += 1
     return n
+
+
+_KNOWN = None
+
+
+def known_fns():
+    """Definition paths of every function of the workspace on the reviewed tree (tables/known_fns.json)."""
+    global _KNOWN
+    if _KNOWN is None:
+        p = os.path.join(os.path.dirname(os.path.dirname(os.path.abspath(__file__))), "tables", "known_fns.json")
+        _KNOWN = set(json.load(open(p))) if os.path.exists(p) else None
+    return _KNOWN
+
+
+def _ren_place(p, off):
+    out = [p[0] + off]
+    for e in p[1:]:
+        if isinstance(e, list) and e and e[0] == "i":
+            out.append(["i", e[1] + off] + list(e[2:]))
+        else:
+            out.append(e)
+    return out
+
+
+def _ren_op(o, off):
+    if o[0] in ("cp", "mv"):
+        return [o[0], _ren_place(o[1], off)]
+    return o
+
+
+def _ren_rv(rv, off):
+    k = rv[0]
+    if k == "use":
+        return ["use", _ren_op(rv[1], off)]
+    if k in ("ref", "raw"):
+        return [k, rv[1], _ren_place(rv[2], off)]
+    if k == "cast":
+        return ["cast", rv[1], _ren_op(rv[2], off), rv[3]]
+    if k == "bin":
+        return ["bin", rv[1], _ren_op(rv[2], off), _ren_op(rv[3], off)]
+    if k == "un":
+        return ["un", rv[1], _ren_op(rv[2], off)]
+    if k == "disc":
+        return ["disc", _ren_place(rv[1], off)] + list(rv[2:])
+    if k == "agg":
+        return ["agg", rv[1], rv[2], [_ren_op(o, off) for o in rv[3]], rv[4]]
+    if k == "rep":
+        return ["rep", _ren_op(rv[1], off), rv[2]]
+    raise ValueError("rvalue kind " + str(k))
+
+
+def _ren_callee(c, off):
+    if isinstance(c, dict) and "ptr" in c:
+        c = dict(c)
+        c["ptr"] = _ren_op(c["ptr"], off)
+    return c
+
+
+def inline_new_helpers(fns, known, max_blocks=40, rounds=2):
+    """MIR-level inlining of *new* private helpers: a function that does not exist on the reviewed tree (it is not in
+    tables/known_fns.json — typically a few lines extracted from an anchored function into `fn helper(..)`) is inlined
+    into its callers (fresh locals, parameters assigned from the arguments, `return` replaced by the assignment of the
+    result and a jump to the continuation), so that every rule analyses the anchored function with its whole body, as
+    before the extraction. Functions known to the rules are never inlined. Returns the number of call sites inlined."""
+    if not known:
+        return 0
+    done = 0
+    for _ in range(rounds):
+        new = {n for n, f in fns.items() if n not in known and f.get("kind") != "Closure" and "{closure" not in n and not f.get("exp")
+               and "::tests::" not in n and "::test::" not in n and sum(1 for b in f["bbs"] if not b.get("cu")) <= max_blocks}
+        if not new:
+            break
+        changed = False
+        for n, f in fns.items():
+            if n in new:
+                continue
+            i = 0
+            while i < len(f["bbs"]):
+                bb = f["bbs"][i]
+                t = bb["t"]
+                i += 1
+                if bb.get("cu") or t[0] != "call" or not isinstance(t[1], dict) or "def" not in t[1]:
+                    continue
+                cn = callee_name(t[1])
+                if cn not in new or cn == n:
+                    continue
+                g = fns[cn]
+                if len(t[2]) != g.get("argc", -1) or any(callee_name(x["t"][1]) == cn for x in g["bbs"] if x["t"][0] == "call" and isinstance(x["t"][1], dict) and "def" in x["t"][1]):
+                    continue
+                try:
+                    off = len(f["locals"])
+                    boff = len(f["bbs"])
+                    nb = []
+                    for gb in g["bbs"]:
+                        st = []
+                        for s_ in gb["s"]:
+                            if s_[0] == "=":
+                                st.append(["=", _ren_place(s_[1], off), _ren_rv(s_[2], off)] + list(s_[3:]))
+                            elif s_[0] == "setdisc":
+                                st.append(["setdisc", _ren_place(s_[1], off)] + list(s_[2:]))
+                            else:
+                                st.append(s_)
+                        gt = gb["t"]
+                        k = gt[0]
+                        if k == "goto":
+                            nt = ["goto", gt[1] + boff]
+                        elif k == "switch":
+                            nt = ["switch", _ren_op(gt[1], off), [[v, b_ + boff] for v, b_ in gt[2]], gt[3] + boff] + list(gt[4:])
+                        elif k == "ret":
+                            if t[3] is not None:
+                                st.append(["=", list(t[3]), ["use", ["mv", [off]]], t[5]])
+                            nt = ["goto", t[4]] if t[4] is not None else ["unreachable"]
+                        elif k == "drop":
+                            nt = ["drop", _ren_place(gt[1], off), gt[2] + boff]
+                        elif k == "call":
+                            nt = ["call", _ren_callee(gt[1], off), [_ren_op(o, off) for o in gt[2]], _ren_place(gt[3], off) if gt[3] is not None else None,
+                                  (gt[4] + boff) if gt[4] is not None else None] + list(gt[5:])
+                        elif k == "assert":
+                            nt = ["assert", gt[1], _ren_op(gt[2], off), gt[3], gt[4] + boff] + list(gt[5:])
+                        elif k in ("unreachable", "resume", "abort"):
+                            nt = list(gt)
+                        else:
+                            raise ValueError("terminator " + str(k))
+                        nbb = {"s": st, "t": nt}
+                        if gb.get("cu"):
+                            nbb["cu"] = gb["cu"]
+                        nb.append(nbb)
+                except (ValueError, IndexError, TypeError):
+                    continue
+                f["locals"].extend(g["locals"])
+                for nm, pl in g.get("dbg", []):
+                    f.setdefault("dbg", []).append([nm, _ren_place(pl, off)])
+                # promoted constants of the callee are referenced by index: append and shift
+                gp = g.get("proms") or []
+                poff = len(f.get("proms") or [])
+                if gp:
+                    f.setdefault("proms", [])
+                    f["proms"].extend(gp)
+                    if g.get("pbodies") is not None:
+                        f.setdefault("pbodies", [])
+                        f["pbodies"].extend(g.get("pbodies") or [])
+                    if poff:
+                        def shift(o):
+                            if isinstance(o, list):
+                                for x in o:
+                                    shift(x)
+                            elif isinstance(o, dict):
+                                if isinstance(o.get("promoted"), int):
+                                    o["promoted"] += poff
+                                for x in o.values():
+                                    shift(x)
+                        nb = json.loads(json.dumps(nb))
+                        shift(nb)
+                for k_, a in enumerate(t[2]):
+                    bb["s"].append(["=", [off + 1 + k_], ["use", a], t[5]])
+                bb["t"] = ["goto", boff]
+                f["bbs"].extend(nb)
+                for key in ("_defs", "_dbgmap"):
+                    f.pop(key, None)
+                done += 1
+                changed = True
+        if not changed:
+            break
+    # a new helper all of whose call sites were inlined no longer exists as a separate writer / caller
+    if done:
+        still = set()
+        for n, f in fns.items():
+            for bb in f["bbs"]:
+                t = bb["t"]
+                if t[0] == "call" and isinstance(t[1], dict) and "def" in t[1]:
+                    still.add(callee_name(t[1]))
+                for a in (t[2] if t[0] == "call" else []):
+                    if a[0] == "k" and isinstance(a[1], dict) and "fn" in a[1]:
+                        still.add(callee_name(a[1]["fn"]))
+        for n in [n for n in fns if n not in known and "{closure" not in n and fns[n].get("kind") != "Closure" and n not in still
+                  and "::tests::" not in n and "::test::" not in n and not fns[n].get("exp") and fns[n].get("vis") != "Public"]:
+            del fns[n]
+    return done
 
 
 def thread_flags(f):
@@ -531,6 +711,22 @@ def family(F, n, module_prefix, depth=2):
                 if cn.startswith(module_prefix) and cn not in out:
                     todo.append((cn, d + 1))
     return out
+
+
+def closure_env(pf, closure_name, through=None):
+    """What the closure `closure_name` created in `pf` captured, by environment slot: [describe(captured operand)]."""
+    tail = closure_name.rsplit("::", 1)[-1]
+    for i, j, p, rv, line in assignments(pf):
+        if rv[0] == "agg" and rv[1].startswith("closure:") and rv[1].endswith(tail) and closure_name.endswith(rv[1][len("closure:"):].rsplit("::", 1)[-1]):
+            return [describe(pf, o, depth=12, through=through if through is not None else TRANSPARENT) for o in rv[3]]
+    return None
+
+
+def subst_env(desc, env):
+    """Rewrite a description made inside a closure in the vocabulary of its parent: `arg:#1.K` -> what slot K captured."""
+    if not env:
+        return desc
+    return re.sub(r"arg:#1\.(\d+)", lambda m: env[int(m.group(1))] if int(m.group(1)) < len(env) else m.group(0), desc)
 
 
 def converts_to(c, target_rx):
@@ -1317,6 +1513,26 @@ def guards(f):
                 out.append({"bb": i, "op": opn, "a": r[2][0], "b": r[2][1],
                             "a_desc": describe(f, r[2][0]), "b_desc": describe(f, r[2][1]),
                             "t": t, "f": fl, "line": bb["t"][4], "via": "call"})
+                continue
+        if isinstance(r, tuple) and r[0] == "call" and len(r[2]) == 2 and isinstance(r[1], dict) and \
+                re.search(r"ops::range::Range(Inclusive)?::<Idx>::contains$", r[1].get("def", "")):
+            # `(a..b).contains(&x)` is `a <= x && x < b` (`..=`: `x <= b`): two comparisons decided by one branch
+            incl = "RangeInclusive" in r[1]["def"]
+            rp = op_place(r[2][0])
+            rr = root_of(f, rp[0]) if rp is not None else None
+            lo = hi = None
+            if isinstance(rr, tuple) and rr[0] == "rvalue" and rr[1][0] == "agg" and rr[1][1].endswith("ops::range::Range") and len(rr[1][3]) == 2:
+                lo, hi = rr[1][3]
+            elif isinstance(rr, tuple) and rr[0] == "call" and callee_name(rr[1]).endswith("RangeInclusive::<Idx>::new") and len(rr[2]) == 2:
+                lo, hi = rr[2]
+            if lo is not None:
+                t, fl = tt
+                if neg:
+                    t, fl = fl, t
+                x = r[2][1]
+                for opn, a_, b_ in (("Le", lo, x), ("Le" if incl else "Lt", x, hi)):
+                    out.append({"bb": i, "op": opn, "a": a_, "b": b_, "a_desc": describe(f, a_), "b_desc": describe(f, b_),
+                                "t": t, "f": fl, "line": bb["t"][4], "via": "contains"})
                 continue
         if isinstance(r, tuple) and r[0] == "rvalue" and r[1][0] == "bin" and r[1][1] in CMP_REGION:
             rv = r[1]
